@@ -155,7 +155,7 @@ class GoExec:
         r = simp_bool(goal) if kind == 'proof' else None
         if r is True:
             return
-        key = (name, tuple(self.trace), src)
+        key = (self.frame.key if self.frame else '?', name, tuple(self.trace), src)
         if key in self.obl_keys:
             return
         self.obl_keys.add(key)
